@@ -11,9 +11,17 @@ ASSUMPTIONS = {"C16": [
     "Compression is abstract in Codecs.tla (a block of n payload bytes is an opaque token C(offset, n)). The bit-level "
     "correctness of the compression algorithms for arbitrary payloads is NOT decided by the model: it is sampled per seed over "
     "payload classes (1 byte, 1 KiB incompressible, highly compressible, dictionary text, 40 000, 70 000, 140 000 bytes and the "
-    "sums of the write sizes) with the underlying format libraries used directly as reference (stdlib compress/gzip; block API of "
-    "klauspost/compress/snappy under a hand-written xerial framer; pierrec/lz4 and klauspost/compress/zstd frame readers/writers). "
-    "lz4, zstd and the snappy block codec are the same libraries the code under test wraps, so a defect inside them is out of reach.",
+    "sums of the write sizes) with reference decoders / encoders used directly: stdlib compress/gzip; for snappy a STRICT hand-written "
+    "block decoder (harness/cdriver/snappystrict.go, written from the format description: literals with 0-4 length bytes, copy1/2/4 with "
+    "1 <= offset <= bytes produced, exact announced length; anything else, e.g. the S2 'repeat' = copy with offset 0, is an error) under a "
+    "hand-written xerial framer, with klauspost/compress/snappy.Encode only as reference ENCODER of the streams fed to the library's reader; "
+    "pierrec/lz4 and klauspost/compress/zstd frame readers/writers. lz4 and zstd are the same libraries the code under test wraps, so a "
+    "defect inside them is out of reach.",
+    "Compression levels: every Codec value that can be configured is driven, not only the zero values: snappy.Codec{Compression: Default|"
+    "Faster|Better|Best} x {Framed, Unframed}, gzip.Codec{Level: -2 (HuffmanOnly), 1, 9} (thorough: -2, -1, 1..9), zstd.Codec{Level: 1, 7, 11} "
+    "(one per klauspost encoder level; thorough adds 3, 5, 9, 22); lz4.Codec has no level. The levels get a sample of payload classes / "
+    "sizes / chunkings and history probes (coverage.levels), not the full chunking enumeration of the default values: the cut into blocks "
+    "does not depend on the level in the code (one encode function pointer per writer).",
     "What the model decides: xerial framing (header once, prefix = block length), the cut of the input into blocks for every write "
     "chunking, what every Read / WriteTo returns for every buffer size, header detection on the first 16 bytes, pooling "
     "(Acquire, Reset, use, error, Close, Release) and independence of the observable result from the pooled object's history.",
@@ -39,6 +47,20 @@ RS = [1, 15, 16, 17, 4096, 32768, 100000]
 PCLASSES = ["rand", "rep", "text"]
 OPAQUE = ["gzip", "lz4", "zstd"]
 W, RD = "w", "r"
+# non-default levels of the Codec types ("" = zero value = default).  snappy: Codec.Compression; gzip: Codec.Level (stdlib constants:
+# -2 HuffmanOnly, -1 default, 1..9); zstd: Codec.Level in zstd's own scale, mapped by EncoderLevelFromZstd to the four klauspost
+# encoder levels (<3 fastest, 3..5 default, 6..9 better, >=10 best); lz4.Codec has no level field.
+LEVELS = {"snappy": ["faster", "better", "best"], "gzip": ["-2", "1", "9"], "zstd": ["1", "7", "11"], "lz4": []}
+LEVELS_THOROUGH = {"snappy": [], "gzip": ["-1", "2", "3", "4", "5", "6", "7", "8"], "zstd": ["3", "5", "9", "22"], "lz4": []}
+
+
+def level_values(tier):
+    out = []
+    for codec in ("snappy", "gzip", "zstd"):
+        for lv in LEVELS[codec] + (LEVELS_THOROUGH[codec] if tier == "thorough" else []):
+            for mode in (("framed", "unframed") if codec == "snappy" else ("",)):
+                out.append((codec, mode, lv))
+    return out
 
 
 def sha(x):
@@ -58,7 +80,7 @@ class Gen:
         return self.seed * 100000 + self.nps
 
     # -- uses -------------------------------------------------------------------------------------------------
-    def wuse(self, codec, mode, ops, budget=-1, pclass=None):
+    def wuse(self, codec, mode, ops, budget=-1, pclass=None, level=""):
         if codec != "snappy" and any(o["op"] == "readfrom" for o in ops):
             # ReadFrom mixed with Write / Flush on one stream is unsupported by pierrec/lz4 itself (ErrInternalUnhandledState):
             # for the wrapped libraries ReadFrom is only used as the single data operation of a stream
@@ -66,9 +88,14 @@ class Gen:
                 ops = [{"op": "write", "n": sum(o["chunks"])} if o["op"] == "readfrom" else o for o in ops]
             else:
                 ops = [o for o in ops if o["op"] != "flush"]
-        u = {"kind": W, "codec": codec, "mode": mode, "pclass": pclass or self.rng.choice(PCLASSES), "pseed": self.pseed(),
+        pclass = pclass or self.rng.choice(PCLASSES)
+        if codec == "gzip" and level == "9" and pclass == "rep" and sum(o["n"] + sum(o.get("chunks", [])) for o in ops) > 60000:
+            # klauspost flate at level 9 needs seconds for > 64 KiB of one repeated byte (2.2 s for 70 000 bytes, and the output is 80 times
+            # larger than at level 8; it still decodes): a cost of the wrapped library, kept out of the time budget
+            pclass = "text"
+        u = {"kind": W, "codec": codec, "mode": mode, "level": level, "pclass": pclass, "pseed": self.pseed(),
              "ops": ops, "budget": budget}
-        u["key"] = "w-" + sha(u)
+        u["key"] = "w-" + sha(u)          # the level is part of the key: "the same use" means the same codec configuration
         return u
 
     @staticmethod
@@ -82,18 +109,19 @@ class Gen:
     def ruse_of(self, wu, ops, trunc=None):
         """reader on the output of writer use wu (index is filled in when the history is assembled)"""
         ops = self.fix_ops(wu["codec"], ops)
-        u = {"kind": RD, "codec": wu["codec"], "mode": wu["mode"], "ops": ops, "src": {"kind": "use", "of": wu["key"]}, "budget": -1}
+        u = {"kind": RD, "codec": wu["codec"], "mode": wu["mode"], "level": wu["level"], "ops": ops, "src": {"kind": "use", "of": wu["key"]}, "budget": -1}
         if trunc:
             u["trunc"] = trunc
         u["key"] = "r-" + sha({"ops": ops, "src": wu["key"], "trunc": trunc})
         self.vary_source(u)
         return u
 
-    def ruse_ref(self, codec, mode, enc, pclass, total, ops, blocks=None, trunc=None, pseed=None):
+    def ruse_ref(self, codec, mode, enc, pclass, total, ops, blocks=None, trunc=None, pseed=None, level=""):
+        # the level of the codec value that makes the reader is NOT part of the key: what a reader returns must not depend on it
         ops = self.fix_ops(codec, ops)
         src = {"kind": "ref", "enc": enc, "pclass": pclass, "pseed": pseed if pseed is not None else self.pseed(), "total": total,
                "blocks": blocks or [32768]}
-        u = {"kind": RD, "codec": codec, "mode": mode, "ops": ops, "src": src, "budget": -1}
+        u = {"kind": RD, "codec": codec, "mode": mode, "level": level, "ops": ops, "src": src, "budget": -1}
         if trunc:
             u["trunc"] = trunc
         u["key"] = "r-" + sha({"ops": ops, "src": src, "trunc": trunc, "codec": codec})
@@ -335,12 +363,66 @@ class Gen:
         bad2 = self.ruse_ref("gzip", "", "lib", "rand", 1024, self.reads(), trunc={"item": 0, "part": "none", "frac": 1, "kind": "ioerr"})
         self.add_group([self.hist("D-gzip-header-fail", [ok, bad, ok, bad2, bad, ok])])
 
+    # 6. codec values with a non-default compression level: payload classes x sizes through writer -> strict / reference decoder ->
+    #    library reader, reference streams through their readers, and history probes (the snappy writer pool and all reader pools are
+    #    shared by the values of all levels: the same use after uses of OTHER levels / the other framing / failed and abandoned streams)
+    def levels(self):
+        r = self.rng
+        quick = self.tier == "quick"
+        self.level_values = []
+        for codec, mode, lv in level_values(self.tier):
+            self.level_values.append("%s%s/%s" % (codec, "/" + mode if mode else "", lv))
+            snappy = codec == "snappy"
+            fp = 0.25 if (codec, mode) in (("snappy", "framed"), ("gzip", "")) else 0.0
+            others = [x for x in LEVELS[codec] + [""] if x != lv]
+            units = []
+            shapes = [("text", [1]), ("text", [1024]), ("text", [40000]), ("text", [32768, 32769]), ("text", [70000, 1, 70000]),
+                      ("rep", [5000]), ("rep", [70000]), ("rand", [1024]), ("rand", [70000])]
+            if not quick:
+                shapes += [(pc, [r.choice(WS) for _ in range(r.randint(1, 3))]) for pc in PCLASSES for _ in range(12)]
+            for pc, sizes in shapes:
+                wu = self.wuse(codec, mode, self.writes(sizes, flush_p=fp, readfrom_p=0.15), pclass=pc, level=lv)
+                units.append([wu, self.ruse_of(wu, self.reads())])
+            for pc, total in [("text", 70000), ("rand", 1024)]:
+                enc = r.choice(["raw", "xerial"]) if snappy else "lib"
+                units.append([self.ruse_ref(codec, mode, enc, pc, total, self.reads(), level=lv)])
+            units.append([self.wuse(codec, mode, self.writes([70000, 1024, 70000]), budget=r.choice([0, 1, 2, 3]), level=lv)])
+            r.shuffle(units)
+            self.pack("level", units, 7)
+            # probes
+            for _ in range(1 if quick else 6):
+                big = r.choice([40000, 70000, 140000])
+                pw = self.wuse(codec, mode, self.writes([r.choice(WS) for _ in range(r.randint(1, 2))] + [big], flush_p=fp), pclass="text", level=lv)
+                pr = self.ruse_of(pw, self.reads())
+                pr2 = self.ruse_ref(codec, mode, "xerial" if snappy else "lib", "text", big, self.reads(), level=lv)
+                probe = [pw, pr, pr2]
+                olv = r.choice(others)
+                ow = self.wuse(codec, mode, self.writes([big, r.choice(WS)]), pclass="text", level=olv)
+                P = {
+                    "otherlevel": [ow, self.ruse_of(ow, self.reads())],
+                    "otherlevel-wfail": [self.wuse(codec, mode, self.writes([big, 1024, big]), budget=r.choice([1, 2, 3]), level=r.choice(others))],
+                    "samelevel-wfail0": [self.wuse(codec, mode, self.writes([big]), budget=0, level=lv)],
+                    "samelevel-wabandon": [self.wuse(codec, mode, self.writes([r.choice(WS), 1023], end="abandon"), level=lv)],
+                    "otherlevel-rabandon": [self.ruse_ref(codec, mode, "xerial" if snappy else "lib", "text", 70000,
+                                                          self.reads([r.choice(RS)], "none", close="abandon"), level=r.choice(others))],
+                }
+                if snappy:
+                    om = "unframed" if mode == "framed" else "framed"
+                    gw = self.wuse("snappy", om, self.writes([big, r.choice(WS)]), level=r.choice(others))
+                    P["otherframing-otherlevel"] = [gw, self.ruse_of(gw, self.reads())]
+                names = sorted(P)
+                hs = [self.hist("level-probe-fresh", probe)] + [self.hist("level-probe-after-" + n, P[n] + probe) for n in names]
+                pick = [r.choice(names) for _ in range(3)]
+                hs.append(self.hist("level-probe-after-" + "+".join(pick), sum((P[n] for n in pick), []) + probe))
+                self.add_group(hs)
+
     def all(self):
         self.directed()
         self.history_variants()
         self.framing()
         self.ref_readers()
         self.opaque()
+        self.levels()
         return self.groups
 
 
@@ -471,12 +553,21 @@ def judge(ctx, tag, path):
     return bad, maxblk, r
 
 
+def lvl(e):
+    return " level=%s" % e["level"] if e.get("level") else ""
+
+
+def h_pclass(byid, e):
+    return byid[e["hid"]]["uses"][e["u"] - 1].get("pclass", "?")
+
+
 def describe(e):
     if e.get("ev") == "conc":
-        return "%s%s goroutine %d of %d: %s" % (e["codec"], "/" + e["mode"] if e["mode"] else "", e["g"], e["goroutines"], e["first"])
+        return "%s%s%s goroutine %d of %d: %s" % (e["codec"], "/" + e["mode"] if e["mode"] else "", lvl(e), e["g"], e["goroutines"], e["first"])
     ops = " ".join("%s(%s)" % (o["op"], ",".join(map(str, o["chunks"])) if o.get("chunks") else o["n"]) for o in e["ops"])
-    return "%s%s %s obj=%d%s: %s" % (e["codec"], "/" + e["mode"] if e["mode"] else "", "writer" if e["kind"] == "w" else "reader",
-                                     e["obj"], " (pooled)" if e["reused"] else " (new)", ops)
+    why = " -- reference decoder (%s): %s" % (e.get("refdec"), e["referr"]) if e.get("referr") else ""
+    return "%s%s%s %s obj=%d%s: %s%s" % (e["codec"], "/" + e["mode"] if e["mode"] else "", lvl(e), "writer" if e["kind"] == "w" else "reader",
+                                         e["obj"], " (pooled)" if e["reused"] else " (new)", ops, why)
 
 
 def run_and_judge(ctx, shards, cov):
@@ -495,6 +586,8 @@ def evaluate(ctx, shards, paths, res, cov):
     div = []
     maxblock, maxblock_hist = 0, None
     samples = []
+    levels = {}
+    lsampled = set()
     for si, (hists, path, (bad, maxblk, r)) in enumerate(zip(shards, paths, res)):
         evs = read_ndjson(path)
         byid = {h["id"]: h for h in hists}
@@ -524,13 +617,31 @@ def evaluate(ctx, shards, paths, res, cov):
             per[k]["pooled_object"] += 1 if e["reused"] else 0
             per[k]["after_failed_or_unfinished"] += 1 if (e["reused"] and was_bad) else 0
             cls = bad.get(ln, set())
+            lk = e["codec"] + ("/" + e["mode"] if e["mode"] else "") + "/" + (e.get("level") or "default")
+            lv = levels.setdefault(lk, {"writer_uses": 0, "complete_streams_ref_decoded": 0, "blocks_ref_decoded": 0, "payload_bytes": 0,
+                                        "reader_uses": 0, "uses_accepted": 0, "uses_on_pooled_object": 0, "payload_classes": set()})
+            lv["uses_on_pooled_object"] += 1 if e["reused"] else 0
+            lv["uses_accepted"] += 0 if cls else 1
+            if e["kind"] == "w":
+                lv["writer_uses"] += 1
+                lv["payload_classes"].add(h_pclass(byid, e))
+                if e["closed"] and not e["failed"] and e["budget"] == -1 and "RefReadable" not in cls:
+                    lv["complete_streams_ref_decoded"] += 1
+                    lv["blocks_ref_decoded"] += len(e["strict"]) if e["codec"] == "snappy" else 1
+                    lv["payload_bytes"] += e["total"]
+            else:
+                lv["reader_uses"] += 1
             if e["kind"] == "w" and e["codec"] == "snappy" and e["mode"] == "framed" and maxblk.get(ln, 0) > maxblock:
                 maxblock, maxblock_hist = maxblk[ln], e["hid"]
             if not cls:
                 accepted += 1
                 per[k]["accepted"] += 1
-                if len(samples) < 4 and (uses % 97 == 1):
-                    samples.append({"history": e["hid"], "use": describe(e), "observed": {x: e[x] for x in ("frames", "hdr", "total", "eq", "refok", "final") if x in e}})
+                if (len(samples) < 4 and (uses % 97 == 1)) or (e.get("level") and e["kind"] == "w" and e["closed"] and e["budget"] == -1
+                                                               and e["codec"] == "snappy" and e["total"] > 30000 and e["level"] not in lsampled and len(lsampled) < 3):
+                    if e.get("level"):
+                        lsampled.add(e["level"])
+                    samples.append({"history": e["hid"], "use": describe(e),
+                                    "observed": {x: e[x] for x in ("frames", "hdr", "total", "eq", "refok", "refdec", "strict", "final") if x in e}})
                 continue
             hist_bad.add(e["hid"])
             prop = cls - {"Model"}
@@ -552,8 +663,11 @@ def evaluate(ctx, shards, paths, res, cov):
         ids = [x["id"] for x in evs if x["ev"] == "hist"]
         hist_total += len(ids)
         hist_ok += len([i for i in ids if i not in hist_bad])
+    for v in levels.values():
+        v["payload_classes"] = sorted(v["payload_classes"])
     cov.update({"uses_recorded": uses, "uses_accepted": accepted, "histories": hist_total, "traces_validated_against_impl": hist_ok,
-                "per_codec": per, "divergences": div[:10], "divergence_count": len(div),
+                "per_codec": per, "levels": {k: levels[k] for k in sorted(levels)},
+                "snappy_reference_decoder": "strict hand-written snappy block decoder (harness/cdriver/snappystrict.go); klauspost only as reference encoder", "divergences": div[:10], "divergence_count": len(div),
                 "max_block_input_bytes": maxblock, "max_block_history": maxblock_hist})
     cov.setdefault("samples", []).extend(samples)
     return div
@@ -574,9 +688,13 @@ def concurrency(ctx, cov):
         if ln in bad:
             rep = ctx.save_replay("conc-%s-g%d" % (e["codec"], e["g"]), [("events.ndjson", "\n".join(json.dumps(x) for x in evs) + "\n")])
             ctx.violation("concurrent use of one %s codec value: %s" % (e["codec"], describe(e)), rep,
-                          key="%s%s/conc Concurrent %s" % (e["codec"], "/" + e["mode"] if e["mode"] else "", e["first"]))
+                          key="%s%s/conc Concurrent%s %s" % (e["codec"], "/" + e["mode"] if e["mode"] else "", lvl(e), e["first"]))
             break
-    cov["concurrency"] = {"goroutines_per_codec": g, "round_trips_per_goroutine": it, "codec_values": 5,
+    vals = sorted({"%s%s/%s" % (e["codec"], "/" + e["mode"] if e["mode"] else "", e.get("level") or "default") for e in evs})
+    lev = [e for e in evs if e.get("level")]
+    cov["concurrency"] = {"goroutines_per_codec": g, "round_trips_per_goroutine": it, "codec_values": len(vals), "values": vals,
+                          "level_values_goroutines": max([e["goroutines"] for e in lev] or [0]),
+                          "level_values_round_trips_per_goroutine": max([e["iters"] for e in lev if e.get("kind") != "interleaved"] or [0]),
                           "goroutine_runs_accepted": len(evs) - len(bad), "bytes": sum(e["bytes"] for e in evs)}
 
 
@@ -599,6 +717,7 @@ def run(ctx):
         mc.result()          # raises Inconclusive when the model itself does not pass
     cov["write_chunkings"] = gen.n_chunkings
     cov["probe_groups"] = gen.n_probes
+    cov["level_values"] = gen.level_values
     cov["write_sizes"], cov["read_buffer_sizes"] = WS, RS
     first = shards[0][0]
     cov["samples"].append({"history_script": {"id": first["id"], "uses": first["uses"][:3]}})
